@@ -112,17 +112,28 @@ pub open spec fn icmp_spec(cc: IntCC, bits: nat, a: nat, b: nat) -> bool {
 
 pub ghost enum Ev {
     Pure,                                              // no memory effect
-    StackStore { slot: int, lo: int, hi: int },         // bytes [lo, hi) of a stack slot written
-    StackLoad { slot: int, lo: int, hi: int },
-    Store { addr: Den, lo: int, hi: int },              // bytes [lo, hi) relative to the address value
-    Load { addr: Den, lo: int, hi: int },
-    MemCopy { dst: Den, src: Den, len: int },           // emit_small_memory_copy / call_memcpy
-    MemSet { dst: Den, len: int },
+    Write { base: Base, lo: int, hi: int },             // bytes [lo, hi) of the object `base` written
+    Read { base: Base, lo: int, hi: int },
     Call { callee: int },
     Trap,
     Control,                                            // jump / brif / switch_to_block / seal
     NewSlot { slot: int, size: int },
 }
+
+/// provenance of a pointer-typed value: which object it points into and at which offset.
+/// A value without a known provenance is its own object at offset 0.
+pub open spec fn ptr_base(v: Value) -> Base {
+    match v.den@ { Den::Addr { base, off } => base, _ => Base::Val(v.id as int) }
+}
+pub open spec fn ptr_off(v: Value) -> int {
+    match v.den@ { Den::Addr { base, off } => off, _ => 0 }
+}
+/// width in bytes of a value as a store writes it
+pub open spec fn den_bytes(d: Den) -> int {
+    match d { Den::Int { bits, val } => bits as int / 8, Den::Float { bits, f } => bits as int / 8, Den::Addr { .. } => ptr_bytes_spec() }
+}
+pub uninterp spec fn ptr_bytes_spec() -> int;   // 4 or 8 (see target_ok)
+pub open spec fn target_ok() -> bool { ptr_bytes_spec() == 4 || ptr_bytes_spec() == 8 }
 
 #[derive(Clone, Copy, PartialEq, Eq)]
 pub struct StackSlot { pub id: u32 }
@@ -162,6 +173,88 @@ impl FunctionBuilder {
             !old(self).slots@.dom().contains(r.id as int),
             final(self).slots@ == old(self).slots@.insert(r.id as int, data.size as int),
             final(self).log@ == old(self).log@.push(Ev::NewSlot { slot: r.id as int, size: data.size as int }),
+    { unimplemented!() }
+
+    // "Optimised memcpy or memmove for small copies": loads `size` bytes from `src` and
+    // stores them to `dest` (or calls memcpy/memmove with that size); asserts that the
+    // greatest power of two dividing `size` is >= min(src_align, dest_align).
+    #[verifier::external_body]
+    pub fn emit_small_memory_copy(&mut self, config: TargetFrontendConfig, dest: Value, src: Value, size: u64,
+                                  dest_align: u8, src_align: u8, non_overlapping: bool, flags: MemFlags)
+        requires size == 0 || size % ((if dest_align < src_align { dest_align } else { src_align }) as u64) == 0
+        ensures
+            final(self).slots == old(self).slots,
+            final(self).log@ == old(self).log@
+                .push(Ev::Read { base: ptr_base(src), lo: ptr_off(src), hi: ptr_off(src) + size })
+                .push(Ev::Write { base: ptr_base(dest), lo: ptr_off(dest), hi: ptr_off(dest) + size }),
+    { unimplemented!() }
+    // "Writes `size` bytes of i8 value `ch` to memory starting at `buffer`"
+    #[verifier::external_body]
+    pub fn emit_small_memset(&mut self, config: TargetFrontendConfig, buffer: Value, ch: u8, size: u64,
+                             buffer_align: u8, flags: MemFlags)
+        requires size == 0 || size % (buffer_align as u64) == 0
+        ensures
+            final(self).slots == old(self).slots,
+            final(self).log@ == old(self).log@
+                .push(Ev::Write { base: ptr_base(buffer), lo: ptr_off(buffer), hi: ptr_off(buffer) + size }),
+    { unimplemented!() }
+}
+
+#[derive(Clone, Copy)]
+pub struct TargetFrontendConfig { pub _p: u8 }
+pub struct Module { pub _p: u8 }
+impl Module {
+    #[verifier::external_body]
+    pub fn target_config(&self) -> (r: TargetFrontendConfig) { unimplemented!() }
+}
+impl types::Type {
+    // "Get an integer type with the requested number of bytes"
+    pub fn int_with_byte_size(bytes: u16) -> (r: Option<types::Type>)
+        ensures (bytes == 1 || bytes == 2 || bytes == 4 || bytes == 8 || bytes == 16)
+            ==> r == Some(types::Type { bits_: (bytes * 8) as u32, is_float: false }),
+    {
+        if bytes == 1 || bytes == 2 || bytes == 4 || bytes == 8 || bytes == 16 {
+            Some(types::Type { bits_: (bytes as u32) * 8, is_float: false })
+        } else { None }
+    }
+}
+
+impl Ins {
+    // ---- memory ----
+    // "Store x to the stack slot SS at offset": writes the bytes of x
+    #[verifier::external_body]
+    pub fn stack_store(self, x: Value, slot: StackSlot, off: i32)
+        ensures self.ev@ == (Ev::Write { base: Base::Slot(slot.id as int), lo: off as int, hi: off + den_bytes(x.den@) })
+    { unimplemented!() }
+    #[verifier::external_body]
+    pub fn stack_load(self, ty: types::Type, slot: StackSlot, off: i32) -> (r: Value)
+        ensures self.ev@ == (Ev::Read { base: Base::Slot(slot.id as int), lo: off as int, hi: off + ty.bits_ / 8 }),
+            den_bytes(r.den@) == ty.bits_ / 8,
+            ty.is_float ==> is_float_of(r.den@, ty.bits_ as nat), !ty.is_float ==> (r.den@ is Addr || is_int_of(r.den@, ty.bits_ as nat)),
+    { unimplemented!() }
+    // "Get the address of a stack slot"
+    #[verifier::external_body]
+    pub fn stack_addr(self, ty: types::Type, slot: StackSlot, off: i32) -> (r: Value)
+        ensures self.ev@ is Pure, r.den@ == (Den::Addr { base: Base::Slot(slot.id as int), off: off as int })
+    { unimplemented!() }
+    // "Store x to memory at p + Offset"
+    #[verifier::external_body]
+    pub fn store(self, flags: MemFlags, x: Value, p: Value, off: i32)
+        ensures self.ev@ == (Ev::Write { base: ptr_base(p), lo: ptr_off(p) + off, hi: ptr_off(p) + off + den_bytes(x.den@) })
+    { unimplemented!() }
+    // "Load from memory at p + Offset" -- the loaded value has the requested type
+    #[verifier::external_body]
+    pub fn load(self, ty: types::Type, flags: MemFlags, p: Value, off: i32) -> (r: Value)
+        ensures self.ev@ == (Ev::Read { base: ptr_base(p), lo: ptr_off(p) + off, hi: ptr_off(p) + off + ty.bits_ / 8 }),
+            den_bytes(r.den@) == ty.bits_ / 8,
+            ty.is_float ==> is_float_of(r.den@, ty.bits_ as nat), !ty.is_float ==> (r.den@ is Addr || is_int_of(r.den@, ty.bits_ as nat)),
+    { unimplemented!() }
+    // "Add immediate integer": on a pointer it moves the offset inside the same object
+    #[verifier::external_body]
+    pub fn iadd_imm(self, x: Value, imm: i64) -> (r: Value)
+        ensures self.ev@ is Pure,
+            x.den@ is Int ==> r.den@ == (Den::Int { bits: x.den@->Int_bits, val: tc(x.den@->Int_bits, x.den@->Int_val + imm) }),
+            !(x.den@ is Int) ==> ptr_base(r) == ptr_base(x) && ptr_off(r) == ptr_off(x) + imm && r.den@ is Addr,
     { unimplemented!() }
 }
 
